@@ -12,7 +12,7 @@ NOISE_VARIANTS = {'Continue', 'Break', 'Some', 'Ok', 'Err', 'None'}
 
 
 class Origins:
-    def __init__(self, body, max_depth=10):
+    def __init__(self, body, max_depth=12):
         self.b = body
         self.fn = body.fn
         self.max_depth = max_depth
@@ -52,7 +52,7 @@ class Origins:
         if not ds:
             return self.b.names.get(l, '_%d' % l)
         if len(ds) == 1:
-            return self.def_str(ds[0], depth + 1, seen + (l,))
+            return self.def_str(ds[0], depth, seen + (l,))
         alts = sorted(set(self.def_str(d, depth + 1, seen + (l,)) for d in ds))
         if len(alts) == 1:
             return alts[0]
